@@ -43,7 +43,17 @@ impl<L: LitName> Subject for Cnf<L> {
         loop {
             match p.next_clause() {
                 Ok(Some(c)) => emit(format!("clause {}", lits(c))),
-                Ok(None) => return End::Clean,
+                Ok(None) => {
+                    // a driver may ask again after the end: the answer stays "end of the formula"
+                    for _ in 0..2 {
+                        match p.next_clause() {
+                            Ok(None) => {}
+                            Ok(Some(_)) => emit("AFTER-END: another clause was handed out after the end of the formula".to_string()),
+                            Err(e) => return end_of(e),
+                        }
+                    }
+                    return End::Clean;
+                }
                 Err(e) => return end_of(e),
             }
         }
@@ -69,7 +79,17 @@ impl<L: LitName> Subject for Wcnf<L> {
         loop {
             match p.next_clause() {
                 Ok(Some((w, c))) => emit(format!("clause w={w} {}", lits(c))),
-                Ok(None) => return End::Clean,
+                Ok(None) => {
+                    // a driver may ask again after the end: the answer stays "end of the formula"
+                    for _ in 0..2 {
+                        match p.next_clause() {
+                            Ok(None) => {}
+                            Ok(Some(_)) => emit("AFTER-END: another clause was handed out after the end of the formula".to_string()),
+                            Err(e) => return end_of(e),
+                        }
+                    }
+                    return End::Clean;
+                }
                 Err(e) => return end_of(e),
             }
         }
@@ -95,7 +115,17 @@ impl<L: LitName> Subject for Gcnf<L> {
         loop {
             match p.next_clause() {
                 Ok(Some((g, c))) => emit(format!("clause g={g} {}", lits(c))),
-                Ok(None) => return End::Clean,
+                Ok(None) => {
+                    // a driver may ask again after the end: the answer stays "end of the formula"
+                    for _ in 0..2 {
+                        match p.next_clause() {
+                            Ok(None) => {}
+                            Ok(Some(_)) => emit("AFTER-END: another clause was handed out after the end of the formula".to_string()),
+                            Err(e) => return end_of(e),
+                        }
+                    }
+                    return End::Clean;
+                }
                 Err(e) => return end_of(e),
             }
         }
